@@ -10,4 +10,18 @@ TABLE = {
         "text": "TLC proves on the boundary product that the specified format is a lossless prefix-free code and emits marshalled vectors; every real frame.Writer.Write / frame.Reader.Read call on generated frames (each header byte value, id bits, payload lengths 0..255, every timestamp/signature bit) is recorded and judged by the TLA+ Marshal/Parse operators, so a layout change made consistently in writer and reader is still caught.",
         "note": "Trusted: MavFrame.tla as transcription of the MAVLink serialization document; TLC; the harness's projection of Go frames to JSON (cross-checked by spec-made vectors). Sampling, not exhaustive, over the 2^24 ids / payload contents.",
     },
+    "C03": {
+        "engine": "wire",
+        "design_ref": "DESIGN.md section 4, C03",
+        "technique": "TLA+ specification of MAVLink field reordering / sizes / CRC_EXTRA / encoding model-checked on all small definitions; every reflected message definition and per-field probe encoding of the real codec validated by TLC against the spec operators",
+        "text": "TLC checks on all definitions with up to 2 (quick) / 3 (thorough) fields that the specified wire order is a stable permutation with extensions last, sizes add up and decode(encode)=canon. The real library is then observed on all 408 shipped message structs plus 9 user structs: CRC_EXTRA and sizes per definition and one-field-at-a-time probe encodings, each record judged by the TLA+ operators (spec-derived layout, not the implementation's).",
+        "note": "Trusted: MavMessage.tla as transcription of the MAVLink serialization rules; the Go struct (via reflection) taken as the message definition because the dialect XML is not shipped; TLC.",
+    },
+    "C04": {
+        "engine": "wire",
+        "design_ref": "DESIGN.md section 4, C04",
+        "technique": "TLA+ Encode/Decode/Canon specification with zero-insensitivity theorems model-checked exhaustively on small definitions and payloads; real Write/Read records (boundary values, arbitrary payload lengths, aliasing windows) validated by TLC",
+        "text": "TLC proves for all small definitions and all payloads up to length 5/6 over {0,1,2} that the specified v2 decoder is insensitive to trailing zeros removed/appended and to bytes past the extended size and that v1 accepts exactly the base length. Every real Write/Read call on boundary assignments and arbitrary payloads of every message type is compared with the spec result; panics and writes to the caller's buffer or its spare capacity are observed with a 0xAA-guarded window.",
+        "note": "Trusted: MavMessage.tla; the harness's reflection-based projection of message values to little-endian limbs; sampling (not exhaustive) over field values and payload contents.",
+    },
 }
